@@ -179,8 +179,11 @@ func (r *Runner[T]) boot(ctx context.Context) error {
 		return nil
 	}
 
-	// Grow the error channel so every child can report without dropping
-	if len(cfg.Entries) > cap(r.serverErrors) {
+	// Grow the error channel so every child can report without dropping. Only the initial
+	// boot may replace it: during a reload Run() is already selecting on the channel, and a
+	// failure sent to a replacement would never be seen. One buffered error is enough to
+	// fail the composite; startRunnable drops (and logs) what does not fit.
+	if len(cfg.Entries) > cap(r.serverErrors) && r.fsm.GetState() == finitestate.StatusBooting {
 		r.serverErrors = make(chan error, len(cfg.Entries))
 	}
 
